@@ -3,7 +3,7 @@ History check: the sequence yielded by `for box in pck[f][lv]` (and by .iter(sel
 under the M1 schedule controller for every execution order of the per-file tasks (all n! for
 <=4 files, sampled beyond; in-process and fork-per-task isolation) and compared as a multiset
 (resp. sequence) with the model; the reader-worker contracts (M6) check each per-file scan."""
-import os, random, itertools
+import json, os, random, itertools
 import numpy as np
 from .. import common, gen, refparse, workload, pools, contracts, endurance
 
@@ -28,6 +28,19 @@ def cases(tier, seed):
     for i, c in enumerate(cs):
         c["sel_seed"] = seed * 31 + i
         c["gen"]["maxfiles"] = 4 if i % 4 else 6
+    # one level step refined by 4 (Header ratio lines `4`, `2 4`, `4 2`): a level's boxes reach beyond what a ratio
+    # of 2 would give its domain
+    r4 = []
+    for c in list(cs):
+        g = c["gen"]
+        if len(r4) < (8 if tier == "quick" else 120) and g.get("nlevels", 1) in (2, 3) and g.get("bf", 8) <= 4 \
+                and not c.get("scale") and not c.get("deepen"):
+            c2 = json.loads(json.dumps(c))
+            c2["gen"]["seed"] = g["seed"] + 40004
+            c2["gen"]["full_refine"] = True
+            c2["ratio4"] = "coarse" if (len(r4) % 3 == 2 and g["nlevels"] == 3) else True
+            r4.append(c2)
+    cs = list(cs) + r4
     cs.append({"kind": "huge", "sel_seed": seed * 31 + 999})      # byte offsets beyond 2**31
     # M10: the same operation repeated in one process under a low open-file limit (vlib/endurance.py)
     return list(cs) + [endurance.case("iterate", tier, seed)]
